@@ -264,6 +264,16 @@ def rule_init_complete(ctx, fl):
 def run(ctx):
     ctx.unit = 'wrap'
     ctx.attempt(rule5_wrapper, ctx)
+    from . import c16
+    for wfl in ('ld', 'dl'):
+        ctx.unit = wfl
+        with ctx.shared({'C16.1': 'C06.8'}, keep=lambda k: k.startswith(('pthread_barrier_init[', 'pthread_barrier_wait[', 'pthread_barrier_destroy[')),
+                        floor=12,
+                        doc='the redirected barrier functions (shared with C16.1): init, wait and destroy of one barrier object all go to '
+                            'MassiveThreads or all to the real library - decided by the wrap switch alone, never by the attribute argument '
+                            '(a barrier initialised by glibc and waited on as a myth_barrier_t has a participant count of 0)'):
+            v16, ws16 = c16.build_view(ctx, wfl)
+            ctx.attempt(c16.rule1_forward, ctx, wfl, v16, ws16)
     for fl in flavours(ctx):
         ctx.unit = fl
         ctx.doc('C06.7', 'native API forwarding: each public entry point of this property reaches the implementation of the same name with its parameters in order and returns its result (sibling slips such as trylock -> lock, signal -> broadcast, swapped arguments)')
